@@ -6,6 +6,11 @@ BASE = open('/root/.vp/BASELINE.json').read()
 baseline_cmd = json.loads(BASE)["cmd"]
 ALL = ["C%02d" % i for i in range(1, 21)]
 CHECKS = {
+ "C10": dict(engine="crash", category="fault_enumeration",
+    technique="differential exploration against a never-freezing twin with a full query battery after every freeze pass, plus exhaustive crash-point enumeration (real process kills) of the freeze + wipe-out sequence",
+    text="A freezing node and a twin without freezer receive the same 17-block, five-epoch chain (transactions, an uncle, proposals, side-chain blocks at heights that become frozen); after every delivery a synchronous freeze pass runs and every getter the property names is compared for every block, transaction and live cell (store, snapshot, and after a restart). A child process is killed at every point of the first and second freeze pass (before each data write, between data and index write, before the fsync, before each database batch); the parent re-opens, compares the battery, runs the next pass (which must continue to the two-epoch threshold), extends the chain and compares again. Freeze policy (threshold, contiguity, monotonicity) is checked after every pass.",
+    note="Trusted: flat world with 4-block epochs; process-crash model; answers about side-chain blocks at frozen heights are exempt; cell data is queried for live cells only.",
+    design="DESIGN.md §5 C10"),
  "C20": dict(engine="node", category="model_checking",
     technique="exhaustive exploration of reorg/truncate/restart histories on the real node with unique proposal ids, compared with the window computed from raw main-chain blocks; verifier agreement at every distance around the window",
     text="For two proposal windows, every history (main chain of length 1..7/10, competing branch forking at every depth 0..far+2 below the tip and overtaking, truncation to every ancestor within far+1) is executed on a real node; after every step the incrementally maintained proposal view, and the view rebuilt by a real shutdown + re-open of the data directory, are compared with the union of proposal ids (uncles included) of the main-chain blocks in the window. A second family commits a real transaction at every distance 1..far+2 from its proposal (by block or by uncle) and requires node view, verifier verdict and window rule to agree.",
